@@ -4,6 +4,7 @@ import (
 	"fmt"
 	"math/rand"
 	"reflect"
+	"sort"
 	"strconv"
 	"strings"
 	"testing"
@@ -414,6 +415,18 @@ func (c *vQCase) line(upto int) string {
 	return fmt.Sprintf("queue %s %d %d %d %s", c.kind, c.b, c.n, c.s, strings.Join(c.ops[:upto], ";"))
 }
 
+var vQMaint = map[string]bool{"reset": true, "rellac": true, "resize": true, "restr": true, "free": true, "shrink": true}
+var vQStats = map[string]int{}
+
+func vQSafeState(drv vQDrv) (st string) {
+	defer func() {
+		if e := recover(); e != nil {
+			st = "panic//"
+		}
+	}()
+	return drv.do("st", 0)
+}
+
 // vQRunCase drives one instance. `shrinkOK`: the case may use an effective Shrink / a Restructuring with spare
 // nodes (after which only the differential continues: the property gives no reference for them, see C20.lean).
 func vQRunCase(r *rand.Rand, out *vOut, kind string, b, n, s, steps int, shrinkOK bool) {
@@ -544,6 +557,13 @@ func vQRunCase(r *rand.Rand, out *vOut, kind string, b, n, s, steps int, shrinkO
 		if op == "push" || op == "pushl" || op == "shrink" || op == "hole" || op == "remove" {
 			opTxt = op + ":" + strconv.Itoa(arg)
 		}
+		// distribution: how often each op ran, and how often a maintenance op ran in a state where it had something
+		// to do (internal fields differ afterwards) / on a multi-node queue
+		maint := vQMaint[op]
+		before := ""
+		if maint {
+			before = vQSafeState(drv)
+		}
 		obs := "panic"
 		func() {
 			defer func() {
@@ -553,6 +573,24 @@ func vQRunCase(r *rand.Rand, out *vOut, kind string, b, n, s, steps int, shrinkO
 			}()
 			obs = drv.do(op, arg)
 		}()
+		vQStats[kind+":"+op]++
+		if maint && obs != "panic" {
+			if after := vQSafeState(drv); after != before {
+				vQStats[kind+":"+op+":effective"]++
+			}
+			if len(ref.e) > 0 {
+				vQStats[kind+":"+op+":nonempty"]++
+			}
+			if strings.Count(strings.SplitN(before, "/", 3)[1], ".") > 0 && !strings.HasPrefix(before, "0.") {
+				vQStats[kind+":"+op+":head-past-node0"]++
+			}
+		}
+		if (op == "hole" || op == "remove") && obs == "ok" {
+			vQStats[kind+":"+op+":effective"]++ // a cell inside the content was nil-ed in place
+		}
+		if obs == "panic" {
+			vQStats[kind+":"+op+":panic"]++
+		}
 		c.ops = append(c.ops, opTxt)
 		c.obs = append(c.obs, obs)
 		bytes += len(opTxt) + len(obs) + 2
@@ -667,5 +705,17 @@ func init() {
 		}
 		// the lock.go containers (ring, priority ring, holder queue, wait queue): zz_verif_queue2_test.go
 		vQueue2Run(r, out, (n+3)/4)
+		// per-op counts of this run (a `#` line is echoed verbatim by the model driver); read by tools/props/c20.py
+		keys := make([]string, 0, len(vQStats))
+		for k := range vQStats {
+			keys = append(keys, k)
+		}
+		sort.Strings(keys)
+		var sb strings.Builder
+		sb.WriteString("# stats")
+		for _, k := range keys {
+			sb.WriteString(" " + k + "=" + strconv.Itoa(vQStats[k]))
+		}
+		out.emit(sb.String(), sb.String())
 	}
 }
